@@ -1,10 +1,13 @@
 #!/bin/sh
-# usage: seedtest.sh <patch.diff> <Cxx> [Cyy ...]  : apply patch to /repo, run quick checks, revert
+# usage: seedtest.sh <patch.diff> <Cxx> [Cyy ...]  : apply patch to /repo, run quick checks, revert.
+# Evidence files are saved and restored: committed evidence must come from the unchanged tree.
 P="$1"; shift
 cd /repo || exit 2
 git diff --quiet || { echo "repo dirty"; exit 2; }
 git apply "$P" || { echo "patch does not apply"; exit 2; }
+rm -rf /verif/work/evidence.bak && cp -r /verif/evidence /verif/work/evidence.bak
 for c in "$@"; do
   (cd /verif && ./check "$c" 2>&1 | grep -E "^(C[0-9]+ |VIOLATION|BROKEN|KNOWN|MACHINERY)" | cut -c1-300)
 done
+rm -rf /verif/evidence && mv /verif/work/evidence.bak /verif/evidence
 git checkout -- . && git status --short | head -3
